@@ -29,8 +29,9 @@ const (
 )
 
 type fault struct {
-	kind faultKind
-	n    int
+	kind  faultKind
+	n     int
+	quiet bool // fShort only: the short count comes with a nil error (FlushCollector checks the count itself)
 }
 
 type logWriter struct {
@@ -56,6 +57,9 @@ func (w *logWriter) Write(p []byte) (int, error) {
 			n = len(p)
 		}
 		w.writes = append(w.writes, append([]byte{}, p[:n]...))
+		if f.quiet && n < len(p) {
+			return n, nil
+		}
 		return n, io.ErrShortWrite
 	}
 	w.writes = append(w.writes, append([]byte{}, p...))
